@@ -159,6 +159,7 @@ class World:
         self.client = "shared"
         self.form = 0
         self.dead_ids = {}
+        self.exprs = {}
         self.id_reuse = 0
         self.pending_drop = False
         from .runtime import DEFAULT_NAMES
